@@ -12,7 +12,11 @@ Readings fixed here (the property text is ambiguous at these points):
    inside a part the k-th (sub-)spine is voice k, `*staffN` gives the staff; parts come in reverse
    spine order.
  * MEI: one part per staffDef, voice = layer/@n, staff = staff/@n; a measure starts where the
-   longest staff of the previous measure ended.
+   longest staff of the previous measure ended.  <section> and <ending> only group measures: the notes, measures and
+   signatures denoted do not depend on how the measures are cut into sibling / nested sections and endings (endings and
+   scoreDef changes may also stand directly in <score> between the sections, as the MEI schema allows; repaired by
+   fixes/C19-29).  A <tie> element links the two notes it names wherever it is written (any measure of any section,
+   before or after the staves); <slur> and other control events denote no notes.
  * round trips: every Note of the exported part is found again with the same onset and duration
    in quarters, step/alter/octave and staff (voices, ties, rests and signatures are not demanded).
    "Parts exportable by the two writers" = the decidable predicates `Exportable` of
@@ -75,7 +79,11 @@ RULE = ("abstract scores (1-3 staves x 1-2 voices x 1-4 measures; 13 meters incl
         "sub-spines per spine, split one by one and joined two by two) and as MEI (meter/key/clef as attributes or children of "
         "staffDef / scoreDef, @ppq and/or @dur.ppq or neither, nested staffGrp and sections, <ending>s, rptstart / rptend, beams, tuplets, "
         "chords, accid / accid.ges / <accid>, mRest, multiRest num=1, space with and without @dur, incomplete layers, <tie> elements, "
-        "scoreDef meter and key changes), loaded through load_kern / load_mei / load_score(.krn .kern .KRN .mei .MEI); "
+        "scoreDef meter and key changes; the measures cut into 1-3 sibling top-level sections, nested sections to depth 3, empty sections, "
+        "endings inside sections or directly in <score>; every <tie> written in the measure where it starts / ends / the first / the last / "
+        "any measure, before or after the staves, <slur>s between arbitrary notes, chords tied in part; scoreDef changes at the end of "
+        "the previous container, between the containers (also directly in <score>) or right before their measure; each such document is "
+        "also written flat and both loads compared), loaded through load_kern / load_mei / load_score(.krn .kern .KRN .mei .MEI); "
         "parts built through the public API (notes entering in voice order or shuffled, acciaccaturas, key and meter changes, a staff "
         "silent without rests, divisions multiplied) exported with save_kern / save_mei: writer model = real output, Exportable agrees "
         "with its Python restatement, the written document denotes what load_score loads and contains every note; a few parts with "
@@ -1077,16 +1085,14 @@ def write_mei(asc, opt, rng):
     if not opt.get("sd_children_first", True):
         w(sd_children)
     w("</scoreDef>")
-    w('<section xml:id="%s">' % ids("sec"))
-    if opt.get("nested_section"):
-        w('<section xml:id="%s">' % ids("sec"))
-    # note ids for ties: (si, vi, flat index of event, pitch index) -> id
-    pending = {}     # (si, vi) -> list of (pitch tuple, id) waiting for their continuation
+    # ---- pass 1: the measures (same order of rng draws as ever: scoreDef changes, <sb>, then the measure's staves)
+    pending = {}     # (si, vi) -> list of (pitch tuple, id, measure) waiting for their continuation
+    ties = []        # (start id, end id, measure of the start note, measure of the end note)
+    reg = []         # (note id, measure) of every sounding note written: slurs pick their ends here
+    pre, opening, body = [], [], []
     for m in range(nm):
-        if opt.get("ending") and m == opt["ending"][0]:
-            w('<ending xml:id="%s" n="1">' % ids("end"))
-        if opt.get("ending") and m == opt["ending"][1]:
-            w('</ending><ending xml:id="%s" n="2">' % ids("end"))
+        lines = []
+        w = lines.append
         if m > 0 and str(m) in asc.get("meterchg", {}):
             cb, cu = asc["meterchg"][str(m)]
             if opt.get("meterchg") == "child":
@@ -1100,8 +1106,11 @@ def write_mei(asc, opt, rng):
                 w('<scoreDef xml:id="%s"><keySig xml:id="%s" sig="%s"/></scoreDef>' % (ids("sd"), ids("ks"), ksig))
             else:
                 w('<scoreDef xml:id="%s" key.sig="%s"/>' % (ids("sd"), ksig))
+        sdefs = list(lines)
+        del lines[:]
         if opt.get("sb") and m > 0 and rng.random() < 0.3:
             w('<sb xml:id="%s"/>' % ids("sb"))
+        pre.append((sdefs, list(lines)))
         mattr = ' xml:id="%s" n="%d"' % (ids("m"), m + opt.get("first_n", 1))
         if m == nm - 1 and opt.get("right_end"):
             mattr += ' right="end"'
@@ -1109,8 +1118,9 @@ def write_mei(asc, opt, rng):
             mattr += ' right="rptend"'
         if m in opt.get("rptstart", []):
             mattr += ' left="rptstart"'
-        w("<measure%s>" % mattr)
-        ties = []
+        opening.append("<measure%s>" % mattr)
+        lines = []
+        w = lines.append
         full = (lens[m] == meter_len(measure_meter(asc, m)))
         for si, st in enumerate(asc["staves"]):
             w('<staff xml:id="%s" n="%d">' % (ids("st"), si + 1))
@@ -1136,7 +1146,6 @@ def write_mei(asc, opt, rng):
                 mm = short_layer(opt, si, vi, m, mm)
                 # group events: tuplets (same tg) and beams
                 i = 0
-                open_beam = False
                 while i < len(mm):
                     e = mm[i]
                     group = [e]
@@ -1148,31 +1157,193 @@ def write_mei(asc, opt, rng):
                     else:
                         j = i + 1
                     beam = opt.get("beams") and all(g["v"] >= 8 for g in group) and (len(group) > 1 or rng.random() < 0.0)
-                    pre, post = "", ""
+                    pre_, post = "", ""
                     if e.get("tup"):
                         t = '<tuplet xml:id="%s" num="%d" numbase="%d">' % (ids("tup"), e["tup"][0], e["tup"][1])
                         if beam and opt.get("beam_outside", True):
-                            pre, post = '<beam xml:id="%s">' % ids("beam") + t, "</tuplet></beam>"
+                            pre_, post = '<beam xml:id="%s">' % ids("beam") + t, "</tuplet></beam>"
                         elif beam:
-                            pre, post = t + '<beam xml:id="%s">' % ids("beam"), "</beam></tuplet>"
+                            pre_, post = t + '<beam xml:id="%s">' % ids("beam"), "</beam></tuplet>"
                         else:
-                            pre, post = t, "</tuplet>"
-                    w(pre)
+                            pre_, post = t, "</tuplet>"
+                    w(pre_)
                     for g in group:
-                        w(mei_event(g, si, vi, ids, opt, rng, pending, ties))
+                        w(mei_event(g, si, vi, ids, opt, rng, pending, ties, m, reg))
                     w(post)
                     i = j
                 w("</layer>")
             w("</staff>")
-        for (a_, b_) in ties:
-            w('<tie xml:id="%s" startid="#%s" endid="#%s"/>' % (ids("tie"), a_, b_))
+        body.append(lines)
+
+    # ---- where the control events stand: a <tie> may be written in any measure, before or after the staves
+    # (its own generator: the draws above stay what they were)
+    crng = random.Random(opt.get("ctl_seed", 0))
+    before = [[] for _ in range(nm)]
+    after = [[] for _ in range(nm)]
+    tie_at = opt.get("tie_at", "end")
+    ctl = []
+    for (a_, b_, ms, me) in ties:
+        ctl.append(("tie", a_, b_, ms, me))
+    for _ in range(opt.get("slurs", 0)):
+        if len(reg) >= 2:
+            (a_, ms), (b_, me) = sorted(crng.sample(reg, 2), key=lambda x: x[1])
+            ctl.append(("slur", a_, b_, ms, me))
+    for (tag, a_, b_, ms, me) in ctl:
+        how = tie_at if tie_at != "mixed" else crng.choice(["end", "start", "first", "last", "any"])
+        at = {"end": me, "start": ms, "first": 0, "last": nm - 1}.get(how)
+        if at is None:
+            at = crng.randrange(nm)
+        el = '<%s xml:id="%s" startid="#%s" endid="#%s"/>' % (tag, ids(tag), a_, b_)
+        front = opt.get("ctl_before", False) if opt.get("ctl_before") in (True, False, None) else crng.random() < 0.5
+        (before if front else after)[at].append(el)
+    if opt.get("ctl_shuffle"):
+        for lst in before + after:
+            crng.shuffle(lst)
+
+    # ---- pass 2: the section structure around the measures
+    w = out.append
+    toks = tree_tokens(mei_tree(opt, nm))
+    sd_at = opt.get("sd_at", "next")
+    n_end = 0
+    gap = []
+
+    depth = [0]
+
+    def emit_struct(t):
+        nonlocal n_end
+        depth[0] += 1 if t[0] == "o" else -1
+        if t[0] == "o" and t[1] == "end":
+            n_end += 1
+            w('<ending xml:id="%s" n="%d">' % (ids("end"), n_end))
+        elif t[0] == "o":
+            w('<section xml:id="%s">' % ids("sec"))
+        else:
+            w("</ending>" if t[1] == "end" else "</section>")
+
+    for t in toks + [("eof",)]:
+        if t[0] in ("o", "c"):
+            gap.append(t)
+            continue
+        if t[0] == "eof":
+            for g in gap:
+                emit_struct(g)
+            break
+        m = t[1]
+        sdefs, sbs = pre[m]
+        # the place of a scoreDef change between two measures: right before the next measure (inside whatever holds it),
+        # right after the previous one (inside whatever holds that), or between the closing and the opening tags
+        k = 0
+        if sd_at == "next" or m == 0:
+            k = len(gap)
+        elif sd_at == "between":
+            while k < len(gap) and gap[k][0] == "c":
+                k += 1
+        for g in gap[:k]:
+            emit_struct(g)
+        for x in sdefs:
+            w(x)
+        for g in gap[k:]:
+            emit_struct(g)
+        gap = []
+        for x in sbs:
+            w(x)
+        w(opening[m])
+        for x in before[m]:
+            w(x)
+        for x in body[m]:
+            w(x)
+        for x in after[m]:
+            w(x)
         w("</measure>")
-    if opt.get("ending"):
-        w("</ending>")
-    if opt.get("nested_section"):
-        w("</section>")
-    w("</section></score></mdiv></body></music></mei>")
+    w("</score></mdiv></body></music></mei>")
     return "\n".join(x for x in out if x) + "\n"
+
+
+def mei_tree(opt, nm):
+    """the section structure of the document: a list of top-level sections (children of <score>); a node is a measure
+    index or {"t": "sec" | "end", "c": [nodes]}.  Without opt["tree"]: one section, optionally wrapped in a second one,
+    optionally closing with two endings (opt["ending"] = [a, b]: measures a..b-1 and b.. )."""
+    if opt.get("tree") is not None:
+        return tree_fit(opt["tree"], nm)
+    inner = list(range(nm))
+    if opt.get("ending"):
+        a, b = opt["ending"]
+        if a < nm <= b:
+            inner = list(range(a)) + [{"t": "end", "c": list(range(a, nm))}]
+        elif a < b < nm:
+            inner = list(range(a)) + [{"t": "end", "c": list(range(a, b))}, {"t": "end", "c": list(range(b, nm))}]
+    node = {"t": "sec", "c": inner}
+    if opt.get("nested_section"):
+        node = {"t": "sec", "c": [node]}
+    return [node]
+
+
+def tree_tokens(tree):
+    """document order: ("o", kind) / ("c", kind) / ("m", measure index)"""
+    out = []
+
+    def walk(n):
+        if isinstance(n, int):
+            out.append(("m", n))
+        else:
+            out.append(("o", n["t"]))
+            for c in n["c"]:
+                walk(c)
+            out.append(("c", n["t"]))
+
+    for n in tree:
+        walk(n)
+    return out
+
+
+def tree_fit(tree, nm, shift=0):
+    """the tree restricted to the measures that exist (after shrinking): leaves renumbered by -shift, those outside
+    0..nm-1 dropped"""
+    def fit(n):
+        if isinstance(n, int):
+            return [n - shift] if 0 <= n - shift < nm else []
+        return [{"t": n["t"], "c": [x for c in n["c"] for x in fit(c)]}]
+
+    return [x for n in tree for x in fit(n)]
+
+
+def tree_measures(tree):
+    return [t[1] for t in tree_tokens(tree) if t[0] == "m"]
+
+
+def rand_tree(rng, nm):
+    """cut the measures 0..nm-1 into 1-3 sibling top-level sections, each cut further into measures, nested sections
+    (to depth 3, sometimes empty) and endings"""
+    def build(lo, hi, depth, in_end):
+        kids, m = [], lo
+        while m < hi:
+            r = rng.random()
+            if r < 0.45 or depth >= 3:
+                kids.append(m)
+                m += 1
+                continue
+            e = rng.randint(m + 1, hi)
+            if r < 0.8 or in_end:
+                kids.append({"t": "sec", "c": build(m, e, depth + 1, in_end)})
+            else:
+                kids.append({"t": "end", "c": build(m, e, depth + 1, True)})
+            m = e
+        if depth < 3 and rng.random() < 0.08:
+            kids.insert(rng.randint(0, len(kids)), {"t": "sec", "c": []})
+        return kids
+
+    k = min(rng.choice([1, 2, 2, 2, 3]), nm)
+    cuts = sorted(rng.sample(range(1, nm), k - 1)) if k > 1 else []
+    bounds = [0] + cuts + [nm]
+    tree = [{"t": "sec", "c": build(bounds[i], bounds[i + 1], 1, False)} for i in range(k)]
+    if k > 1 and rng.random() < 0.15:
+        # an <ending> standing directly in <score>, after a section
+        i = rng.randrange(1, k)
+        tree[i] = {"t": "end", "c": build(bounds[i], bounds[i + 1], 1, True)}
+    if rng.random() < 0.15:
+        tree.insert(rng.randint(0, len(tree)), {"t": "sec", "c": []})
+    assert tree_measures(tree) == list(range(nm))
+    return tree
 
 
 def short_layer(opt, si, vi, m, mm):
@@ -1211,7 +1382,7 @@ def silent_mode(opt, vi, full):
     return mode
 
 
-def mei_event(e, si, vi, ids, opt, rng, pending, ties):
+def mei_event(e, si, vi, ids, opt, rng, pending, ties, m=0, reg=None):
     durattrs = ' dur="%s"' % mei_dur(e["v"]) + (' dots="%d"' % e["d"] if e.get("d") else "")
     if opt.get("ppq") and opt.get("declare", "ppq" if not opt.get("durppq") else "both") in ("durppq", "both") and e["t"] != "g":
         durattrs += ' dur.ppq="%d"' % int(ev_value(e) * opt["ppq"])
@@ -1252,14 +1423,17 @@ def mei_event(e, si, vi, ids, opt, rng, pending, ties):
     new_wait = []
     parts = []
     chord = len(e["p"]) > 1
+    tk = tied_keys(e)
     for p in e["p"]:
         nid, txt = note(p, (not chord) or opt.get("chord_note_dur", False), False)
         parts.append(txt)
-        for (pp, wid) in waiting:
+        if reg is not None:
+            reg.append((nid, m))
+        for (pp, wid, wm) in waiting:
             if tuple(pp) == tuple(p):
-                ties.append((wid, nid))
-        if e.get("tie"):
-            new_wait.append((tuple(p), nid))
+                ties.append((wid, nid, wm, m))
+        if tuple(p) in tk:
+            new_wait.append((tuple(p), nid, m))
     pending[(si, vi)] = new_wait
     if chord:
         return '<chord xml:id="%s"%s>%s</chord>' % (ids("ch"), durattrs, "".join(parts))
@@ -1287,7 +1461,7 @@ def mei_expect(asc, opt):
                         ends[m].append(pos + lens[m])
                 else:
                     for e in short_layer(opt, si, vi, m, mm):
-                        evs.append((pos, ev_value(e), e["t"], e.get("p", []), bool(e.get("tie"))))
+                        evs.append((pos, ev_value(e), e["t"], e.get("p", []), tied_keys(e)))
                         pos += ev_value(e)
                     ends[m].append(pos)
                 t0 += lens[m]
@@ -1394,7 +1568,21 @@ def rand_mei_opt(rng, asc):
             "short": [rng.randrange(len(asc["staves"])), rng.randrange(n_measures(asc))] if rng.random() < 0.3 else None,
             "keychg": rng.choice(["attr", "child"]), "multirest": rng.random() < 0.3,
             "ending": _rand_ending(rng, n_measures(asc)) if rng.random() < 0.3 else None,
-            **_rand_repeats(rng, n_measures(asc))}
+            **_rand_repeats(rng, n_measures(asc)), **_rand_structure(rng, n_measures(asc))}
+
+
+def _rand_structure(rng, nm):
+    """how the same measures are cut into sections and where the control events stand"""
+    o = {}
+    if rng.random() < 0.6:
+        o["tree"] = rand_tree(rng, nm)
+    o["tie_at"] = rng.choice(["end", "start", "start", "mixed", "mixed", "first", "last"])
+    o["ctl_before"] = rng.choice([False, False, True, "mixed"])
+    o["ctl_seed"] = rng.getrandbits(30)
+    o["slurs"] = rng.choice([0, 0, 1, 3])
+    o["ctl_shuffle"] = rng.random() < 0.3
+    o["sd_at"] = rng.choice(["next", "next", "prev", "between"])
+    return o
 
 
 def _rand_repeats(rng, nm):
@@ -2323,7 +2511,7 @@ def cases(rng, tier):
                "via": r.choice(["load_kern", "load_kern", ".krn", ".kern", ".KRN"])}
         seed = rng.getrandbits(48)
         r = random.Random(seed)
-        asc = gen_asc(r, exotic=r.random() < 0.2, chord_ties=True)
+        asc = gen_asc(r, exotic=r.random() < 0.2, chord_ties=True, partial_ties=r.random() < 0.25)
         opt = rand_mei_opt(r, asc)
         if opt["space"]:
             asc = spaces_for_rests(asc, r)
@@ -2455,12 +2643,56 @@ def eval_mei(d):
         tx = impl_texts(infos, "mei")
         ev.impl += [tx["notes"], tx["joined"], tx["meas"], tx["sigs"], W.f_list(lambda i: W.f_rat(i["divs"]), infos)]
         oracle_compare(exp, infos, ev.oracle)
+        structure_clause(d, infos, ev.oracle)
         if opt.get("ppq") and opt.get("declare") in ("ppq", "both"):
             for pi, inf in enumerate(infos):
                 if inf["divs"] != opt["ppq"]:
                     ev.oracle.append("ppq: part %d declares ppq=%d, loaded with %s" % (pi, opt["ppq"], inf["divs"]))
     ev.key = "mei:" + text if infos and any(i["notes"] for i in infos) else None
     return ev
+
+
+STRUCT_KEYS = ("tree", "nested_section", "ending", "slurs", "ctl_shuffle", "tie_at", "ctl_before", "sd_at")
+
+
+def plain_structure(opt):
+    """the same document options with the music in ONE flat section, every tie written after the staves of the
+    measure in which it ends, no slurs, scoreDef changes right before their measure"""
+    o = {k: v for k, v in opt.items() if k not in STRUCT_KEYS}
+    o.update(nested_section=False, ending=None)
+    return o
+
+
+def structure_clause(d, infos, fails):
+    """the notes denoted do not depend on how the same measures are cut into sections / endings or on where the
+    control events (<tie>, <slur>) are written: the document is written a second time, flat, and must load to the same
+    notes (with their tie links), sounding notes, measures, signatures, clefs and divisions"""
+    opt = d["opt"]
+    flat = plain_structure(opt)
+    if flat == {k: v for k, v in opt.items() if k != "ctl_seed"} or flat == opt:
+        return
+    text0 = write_mei(d["asc"], flat, random.Random(d.get("seed", 0) ^ 0x5EED))
+    try:
+        infos0 = extract_parts(load_text(text0, ".mei", loader="mei"))
+    except Exception:
+        return      # nothing to compare with
+    if len(infos0) != len(infos):
+        fails.append("structure: %d part(s) loaded, %d from the same music in one flat section" % (len(infos), len(infos0)))
+        return
+    for pi, (a, b) in enumerate(zip(infos, infos0)):
+        for fld, label in (("notes", "notes (onset,dur,kind,step,alter,oct,voice,staff,tied back,tied on)"),
+                           ("joined", "sounding notes"), ("measures", "measures (number,name,start,end)"),
+                           ("ts", "time signatures"), ("ks", "key signatures"), ("clefs", "clefs"), ("divs", "divisions")):
+            if a[fld] != b[fld]:
+                if isinstance(a[fld], list):
+                    sub = []
+                    multiset_diff(b[fld], a[fld], "x", sub)
+                    det = sub[0][3:] if sub else "same elements in another order"
+                else:
+                    det = "%s instead of %s" % (a[fld], b[fld])
+                fails.append("structure: part %d %s differ from those of the same music written in one flat section: %s"
+                             % (pi, label, det))
+                return
 
 
 def has_tied_chord(d):
@@ -2532,7 +2764,9 @@ def _shrink(d, asc, nm, mk):
             if "1" in a["meterchg"]:
                 a["meter"] = a["meterchg"]["1"]
             a["meterchg"] = {str(int(k) - 1): v for k, v in a["meterchg"].items() if int(k) > 1}
-            if ok:
+            if ok and (d.get("opt") or {}).get("tree") is not None:
+                yield mk(a, opt=dict(d["opt"], tree=tree_fit(d["opt"]["tree"], nm - 1, shift=1)))
+            elif ok:
                 yield mk(a)
     if asc.get("pickup"):
         a = copy.deepcopy(asc)
@@ -2542,6 +2776,27 @@ def _shrink(d, asc, nm, mk):
                 if v[0] is not None:
                     v[0] = [{"t": "r", "v": vv, "d": dd, "tup": None} for (vv, dd) in rest_fill(meter_len(a["meter"]))]
         yield mk(a)
+    # plainer document structure (MEI): first everything at once, then one dimension at a time
+    if d["k"] == "mei":
+        opt = d["opt"]
+        flat = plain_structure(opt)
+        if any(opt.get(k) != flat.get(k) for k in STRUCT_KEYS):
+            yield mk(copy.deepcopy(asc), opt=flat)
+        if opt.get("tree") is not None:
+            tree = tree_fit(opt["tree"], nm)
+            for k in range(1, nm):
+                two = [{"t": "sec", "c": list(range(k))}, {"t": "sec", "c": list(range(k, nm))}]
+                if tree != two:
+                    yield mk(copy.deepcopy(asc), opt=dict(opt, tree=two))
+            for two in ([{"t": "sec", "c": list(range(nm))}, {"t": "sec", "c": []}],
+                        [{"t": "sec", "c": [{"t": "sec", "c": list(range(nm))}]}],
+                        [{"t": "sec", "c": [{"t": "end", "c": list(range(nm))}]}]):
+                if tree != two:
+                    yield mk(copy.deepcopy(asc), opt=dict(opt, tree=two))
+        for key, plain in (("slurs", 0), ("ctl_shuffle", False), ("ctl_before", False), ("tie_at", "end"), ("tie_at", "start"),
+                           ("sd_at", "next"), ("short", None), ("sb", False), ("beams", False), ("rptstart", []), ("rptend", [])):
+            if opt.get(key, plain) != plain and not (key == "tie_at" and opt.get(key) in ("end", "start")):
+                yield mk(copy.deepcopy(asc), opt=dict(opt, **{key: plain}))
     # simplify events: chord -> single, drop grace, untie, plain pitch; a measure -> rests
     for si, st in enumerate(asc["staves"]):
         for vi, voice in enumerate(st["voices"]):
@@ -2620,7 +2875,42 @@ def distribution(descs, results):
                 feats["export_not_exportable"] += 1 if d.get("nonexp") else 0
                 feats["export_silent_staff"] += 1 if "silent_staff" in (d.get("xopt") or {}) else 0
             if d["k"] == "mei":
-                feats["mei_endings"] += 1 if d["opt"].get("ending") else 0
+                toks = tree_tokens(mei_tree(d["opt"], n_measures(a)))
+                depth, maxd, top = 0, 0, 0
+                for t in toks:
+                    if t[0] == "o":
+                        top += 1 if depth == 0 else 0
+                        depth += 1
+                        maxd = max(maxd, depth)
+                    elif t[0] == "c":
+                        depth -= 1
+                feats["mei_endings"] += 1 if any(t[:2] == ("o", "end") for t in toks) else 0
+                feats["mei_top_level_sections=%d" % min(top, 3)] += 1
+                feats["mei_section_depth=%d" % min(maxd, 4)] += 1
+                feats["mei_tie_at_" + str(d["opt"].get("tie_at", "end"))] += 1
+                feats["mei_ctl_before_staves"] += 1 if d["opt"].get("ctl_before") else 0
+                feats["mei_slurs"] += 1 if d["opt"].get("slurs") else 0
+                feats["mei_sd_at_" + str(d["opt"].get("sd_at", "next"))] += 1
+                tied_over = False
+                if top > 1:
+                    # a tie whose two notes stand in different top-level sections
+                    sec_of, cur, depth = {}, -1, 0
+                    for t in toks:
+                        if t[0] == "o":
+                            cur += 1 if depth == 0 else 0
+                            depth += 1
+                        elif t[0] == "c":
+                            depth -= 1
+                        else:
+                            sec_of[t[1]] = cur
+                    for st_ in a["staves"]:
+                        for v in st_["voices"]:
+                            for mi, mm in enumerate(v):
+                                if mm and mi + 1 < len(v) and v[mi + 1]:
+                                    last = [e for e in mm if e["t"] != "g"]
+                                    if last and last[-1].get("tie") and sec_of.get(mi) != sec_of.get(mi + 1):
+                                        tied_over = True
+                feats["mei_tie_across_top_level_sections"] += 1 if tied_over else 0
                 feats["mei_repeats"] += 1 if (d["opt"].get("rptstart") or d["opt"].get("rptend")) else 0
                 feats["mei_ppq_inferred"] += 1 if not (d["opt"].get("ppq")) else 0
                 feats["mei_dur_ppq_only"] += 1 if (d["opt"].get("ppq") and d["opt"].get("declare") == "durppq") else 0
